@@ -102,6 +102,18 @@ CLAIMED = {
             "either case, prov.read without format - an exploration of the stream position its detection attempts "
             "leave behind); PROV-N must not be read back.", "exhaustive enumeration of the finite product of documents, "
             "formats, destination kinds, source kinds and readers on the real API (environment-answer enumeration)", NOTE),
+    "C17": ("Fault enumeration at the system-call boundary (LD_PRELOAD shim native/faultfs.c interposing write, rename*, "
+            "sendfile, copy_file_range, open*, unlink, fsync for sandbox paths): full product of 4 formats x document "
+            "sizes (1, several, many write calls) x 10 destination names (relative, absolute, space, non-ASCII, '#', '?', "
+            "';', ':', sub-directory) x pre-existing/absent x every schedule with <= 1 (thorough 2) deviations from the "
+            "fault-free call sequence: k-th write fails or is short for every k, the move fails or answers EXDEV and the "
+            "copy fallback's steps fail, temp-file removal fails, the serialiser itself raises.  Success must create "
+            "exactly the named file with exactly the BytesIO bytes and touch nothing else; failure must reach the caller "
+            "and leave the named file byte-identical.",
+            "exhaustive fault/crash-point enumeration at the libc boundary on the real write path (deviation-bounded: "
+            "0, 1, 2 environment deviations)",
+            "bounded by the listed names/sizes/schedules; a crash is modelled as the failing call returning an error; "
+            "trusted: the interposition shim sees every relevant call CPython makes, CPython, the harness"),
 }
 
 NA = {}
